@@ -178,7 +178,10 @@ def _lookup_semantics(ctx, decl_fields: List[str]) -> Set[str]:
                 c = elem_cls(f)
                 if c is not None:
                     contents[f].append(Obj(c, {'name': 'decoy.dzn', 'fqn': ids(('a',))}))
-        fct = Obj(fc, {k: v for k, v in contents.items()})
+        fct = it.construct(fc, [], {})          # every field by its declared default ...
+        for k, v in contents.items():
+            if isinstance(fct.fields.get(k), list) or k not in fct.fields:
+                fct.fields[k] = v               # ... the containers filled with the universe
     except (Raised, Undecided):
         return decided
     names = [seq for n in (1, 2) for seq in itertools.product('ab', repeat=n)]
